@@ -25,7 +25,15 @@ def main():
 
                 handles.clear()
                 for hid, spec in cmd["handles"].items():
-                    handles[hid] = make_handle(cmd["path"], spec["ro"], spec["buf"])
+                    if spec.get("plain"):
+                        # an uninstrumented handle (picklable)
+                        import atexit
+                        from molli.storage import Collection, UkvCollectionBackend
+
+                        handles[hid] = Collection(cmd["path"], UkvCollectionBackend, readonly=spec["ro"], bufsize=spec["buf"])
+                        atexit.unregister(handles[hid]._backend.flush)
+                    else:
+                        handles[hid] = make_handle(cmd["path"], spec["ro"], spec["buf"])
                 rep = {"ok": True}
             elif op == "new_gated":
                 # construct a handle, but stop right before its FIRST lock acquisition until the driver opens the gate:
@@ -64,6 +72,17 @@ def main():
                 with cm:
                     if cmd["mode"] == "w":
                         c_[cmd["key"]] = bytes.fromhex(cmd["val"])
+                    during = cmd.get("during")
+                    if during:
+                        # inside the session this process copies an IDLE handle of the same library (no session is begun on the copy)
+                        import copy
+                        import pickle
+                        import atexit
+
+                        idle = handles[cmd["idle"]]
+                        cp = pickle.loads(pickle.dumps(idle)) if during == "unpickle" else copy.deepcopy(idle)
+                        atexit.unregister(cp._backend.flush)
+                        handles["_copy"] = cp
                     open(cmd["at_file"], "w").close()
                     t0 = time.time()
                     while not os.path.exists(cmd["gate_file"]) and time.time() - t0 < 60:
